@@ -66,11 +66,11 @@ FILE *logfile();
 void json_str(FILE *f, const std::string &s);
 
 struct Call {
-  long long sum; long wsum; int pos; FILE *f;
+  long long sum; long wsum; int pos; FILE *f; uint32_t lasth;
   Call(int gid, long sigid, long thisst) : sum(sigid + 17LL * thisst), wsum(1), pos(0), f(logfile()) {
     if (f) fprintf(f, "{\"g\":%d,\"f\":%ld,\"this\":%ld,\"args\":[", gid, sigid, thisst);
   }
-  void add(uint32_t h) { static const int P[3] = {101, 211, 307}; sum += (long long)P[pos] * h; wsum += h % 7; ++pos; }
+  void add(uint32_t h) { static const int P[3] = {101, 211, 307}; sum += (long long)P[pos] * h; wsum += h % 7; ++pos; lasth = h; }
   void sep() { if (f && pos) fputc(',', f); }
   void s(long long v) { sep(); if (f) fprintf(f, "%lld", v); add(H32((uint32_t)(int32_t)v)); }          // <= 32 bit, signed
   void u(unsigned long long v) { sep(); if (f) fprintf(f, "%llu", v); add(H32((uint32_t)v)); }          // <= 32 bit, unsigned
@@ -114,6 +114,8 @@ inline float enc_f32(long m) { static const long B[6] = {0, 1, -1, 16777215, -16
 inline double enc_f64(long m) { static const long long B[7] = {0, 1, -1, 16777217, -16777217, 2147483647LL, -2147483648LL}; long long k = m % 5 == 0 ? B[bidx(m, 7)] : gen32(m); return (double)k / 8.0; }
 inline bool enc_bool(long m) { return m % 2 != 0; }
 inline unsigned int enc_enum(long m) { static const unsigned int V[3] = {0, 5, 70000}; return V[m % 3]; }
+inline int enc_enumc(long m) { static const int V[3] = {-3, 0, 100}; return V[m % 3]; }
+inline long long enc_enuml(long m) { static const long long V[3] = {0, 5000000000LL, -5000000000LL}; return V[m % 3]; }
 inline std::string enc_string(long m) { return mkstr(m % NStrings, m % 100000); }
 // a returned C string must outlive the call: one buffer per call site
 inline const char *enc_cstr(long m, std::string &hold) { hold = mkstr(m % NCStrings, m % 100000); return hold.c_str(); }
